@@ -205,7 +205,10 @@ class Ctx:
         """make the property's target (full .vo), then recompile the Properties file to capture
         Print Assumptions; count obligations in the dependency cone."""
         targets = self.coq_targets()
-        bad = scan_forbidden()
+        cone0 = []
+        for t in targets:
+            cone0 += [f for f in cone_of(t[:-1]) if f not in cone0]
+        bad = scan_forbidden(cone0)
         if bad:
             self.broken.append(('proof', 'forbidden-construct', '; '.join(bad[:5])))
             return False
@@ -464,12 +467,14 @@ def failing_lemma(where):
     return where
 
 
-def scan_forbidden():
+def scan_forbidden(files):
+    """forbidden constructs in the given .v files (paths relative to coq/): the dependency cone of
+    the property being checked"""
     bad = []
-    for root, dirs, names in os.walk(COQ):
-        for n in names:
-            if n.endswith('.v'):
-                p = os.path.join(root, n)
+    for rel in files:
+        if True:
+            if True:
+                p = os.path.join(COQ, rel)
                 txt = re.sub(r'\(\*.*?\*\)', '', open(p).read(), flags=re.S)
                 for i, ln in enumerate(txt.splitlines(), 1):
                     if FORBIDDEN.search(ln):
